@@ -684,6 +684,19 @@ def run_case(case, ctx):
     if exc is not None:
         ctx.check("lib.parse", False, key=("constructor-raised", type(exc).__name__), exc=repr(exc)[:300])
         return
+    if case["gseed"] % 3 == 0:
+        # history leg: the same gene models (same coordinates, identifiers, qualifiers, sequence name) on ANOTHER genome are exported
+        # first in this process; what is written for the primary collection afterwards (sequence, translations) must be the
+        # primary's own - an export is a function of its collection, not of earlier exports
+        case2 = dict(case, gseed=case["gseed"] + 1)
+        genome2 = _genome(case2)
+        parent2 = GG.build_parent({"mode": "chrom", "genome": genome2, "seqname": spec["sequence_name"]})
+        coll2, exc2 = ctx.call(GG.build_collection, spec, parent2)
+        if exc2 is None:
+            text2, exc2 = ctx.call(_export, coll2, flavour, case["update_translations"], bool(case.get("force_strand", True)))
+            if exc2 is None:
+                ctx.bump("history-leg: same models exported first on another genome")
+                _independent_leg(case2, ctx, text2, srcs, genome2)
     text, exc = ctx.call(_export, coll, flavour, case["update_translations"], bool(case.get("force_strand", True)))
     if exc is not None:
         ctx.check("ind.sequence", False, key=("export-raised", flavour, type(exc).__name__), exc=repr(exc)[:300])
